@@ -512,7 +512,7 @@ def scenario(args):
     def move_op(style):
         """rename (git mv) or copy a committed file and edit it: by an agent whose pre-edit checkpoint precedes the
         move (the note then attributes the whole new path to the session), or by a person"""
-        cands = [q for q in names if q in files and len(files[q]) >= 4]
+        cands = [q for q in names if q in files and len(files[q]) >= 4 and q != "a.txt"]   # a.txt: the merge scenarios
         if not cands:
             return
         old = r.pick(cands)
